@@ -342,6 +342,13 @@ def gen_fld(rng):
     p["bounds"] = rng.random() < 0.4
     p["aseed"] = rng.randrange(1 << 30)
     p["write"] = rng.random() < 0.7
+    # netCDF name clashes at the moment the count/index variable is written: the instance axis (or, for
+    # indexed contiguous arrays, the outer axis) already owns the name the sample / feature dimension wants
+    p["clash"] = rng.choice([None, None, None, "element", "sample", "feature"])
+    # a second compressed field with OTHER counts in the same file (0: none, 1: written after, 2: before)
+    # (not for indexed contiguous arrays: two of those in one file hit writer/reader defects in how fields
+    #  share count/index variables — property C09's subject, recorded there)
+    p["second"] = 0 if p["method"] == "indexed_contiguous" else rng.choice([0, 0, 1, 2])
     return p
 
 
@@ -718,11 +725,27 @@ def impl_fld(c):
     if p["write"]:
         path = os.path.join(scratch(), f"f_{os.getpid()}.nc")
         try:
-            C.write(g, path)
+            towrite = [g]
+            if p.get("clash"):
+                g.domain_axis(axes[0]).nc_set_dimension(p["clash"])
+            if p.get("second"):
+                # same shape, other counts: the rows in reverse order with one more trailing element masked
+                arr2 = np.ma.array(arr[..., ::-1, :].copy()) if arr.ndim == 2 else np.ma.array(arr[:, ::-1, :].copy())
+                arr2[..., -1] = np.ma.masked
+                f2, _ = make_field(p, arr2)
+                f2.set_property("standard_name", "air_pressure")
+                g2 = f2.compress(p["method"])
+                towrite = [g, g2] if p["second"] == 1 else [g2, g]
+            C.write(towrite, path)
             ex["file"] = read_file_independently(path, p, arr.shape)
             h = C.read(path)
-            if len(h) != 1:
+            if len(towrite) == 1 and len(h) != 1:
                 fail(f"cfdm.read returned {len(h)} fields")
+            # (with a second field in the file only the DATA of this one are C06's business: whether the two
+            #  fields' coordinates interfere is property C09)
+            h = [x for x in h if x.get_property("standard_name", None) == "air_temperature"]
+            if len(h) != 1:
+                fail(f"cfdm.read returned {len(h)} air_temperature fields")
             else:
                 h = h[0]
                 if h.data.get_compression_type() != want_type:
@@ -785,17 +808,18 @@ def read_file_independently(path, p, shape):
                 return dict(error="more instances in the file than in the field")
             dec = lambda a: cf_contiguous(count, shape, a)
         elif m == "indexed":
+            # (another field of the same file may have an index variable of its own, on its own sample dimension)
+            indexv = [v for v in indexv if v.dimensions == (sample,)]
             if len(indexv) != 1 or countv:
-                return dict(error="expected exactly one index variable and no count variable")
-            if indexv[0].dimensions != (sample,):
-                return dict(error="index variable not on the sample dimension")
+                return dict(error="expected exactly one index variable on the sample dimension and no count variable")
             index = [int(x) for x in indexv[0][...]]
             dec = lambda a: cf_indexed(index, shape, a)
         else:
-            if len(indexv) != 1 or len(countv) != 1:
-                return dict(error="expected one count and one index variable")
-            if indexv[0].dimensions != countv[0].dimensions:
-                return dict(error="count and index variables on different dimensions")
+            if len(countv) != 1:
+                return dict(error="expected one count variable naming the sample dimension")
+            indexv = [v for v in indexv if v.dimensions == countv[0].dimensions]
+            if len(indexv) != 1:
+                return dict(error="expected one index variable on the count variable's dimension")
             count = [int(x) for x in countv[0][...]]
             index = [int(x) for x in indexv[0][...]]
             dec = lambda a: cf_indexed_contiguous(count, index, shape, a)
@@ -1065,6 +1089,10 @@ def classify(c):
                 and raised):
             # the bounds of the same-axes coordinate have a trailing dimension of size 2
             return "indexed-contiguous-trailing-dimension-longer-than-elements"
+        both = msg + " " + str(getattr(c, "oracle_fail", "") or "")
+        if (p.get("clash") or p.get("second")) and any(s in both for s in ("write/read raised", "re-read", "cfdm.read returned", "file: ", "independent decode of the written")):
+            # fixed in /repo (known_findings.json): reported again if it returns
+            return "written-sample-or-feature-dimension-name-not-the-unique-one"
         t = triggers(p)
         if t:
             return sig_for(p, t)
